@@ -50,6 +50,9 @@ type Outcome struct {
 	Panic  bool
 }
 
+// Guard runs f, turning an error or a panic into an Outcome.
+func Guard(f func() error) Outcome { return guard(f) }
+
 func guard(f func() error) (o Outcome) {
 	defer func() {
 		if r := recover(); r != nil {
